@@ -218,11 +218,19 @@ pub fn plan(id: &str) -> Option<Plan> {
             thorough_runs: 40_000,
             rule: "fee/emissions profile interleaved with market activity: fee collection with buckets fractional / zero / above vault liquidity, admin and permissionless fee and insurance withdrawals, emissions set-up and top-up, settle / withdraw / permissionless withdraw with time advances; one evaluation = one judged collection, vault draw-down, settlement or payout; fee collection and bucket arithmetic are checked exactly (rationals), destinations are recomputed canonically (bank vaults, ATA of the global fee wallet, ATA of the stored emissions wallet); distinct = ix kind x bucket classes x liquidity class / settlement side x capped x dt",
         },
+        "C20" => Plan {
+            id: "C20",
+            level: "exploration",
+            profiles: vec![INTEG, INTEG, INTEGADM],
+            quick_runs: 1500,
+            thorough_runs: 24_000,
+            rule: "venue-bank worlds (real marginfi venue deposits / withdrawals and the six real exchange-rate-adjusted price adapters against independently computing stub venues whose rate rises over simulated time, venue accounts refreshed or - as a fault - left stale, extreme venue states); one evaluation = one adapter probe on a fork after a venue write / clock advance (staleness verdict, adjusted price <= price x exact rate, truncation bound, monotonicity pair, overflow reported) or one venue deposit / withdrawal judged for 'no value from conversion' plus the cover invariant after every transaction; distinct = oracle setup x venue verdict x trigger, instruction x rate class",
+        },
         _ => return None,
     })
 }
 
-pub const ALL: &[&str] = &["C01", "C02", "C03", "C04", "C05", "C06", "C07", "C08", "C09", "C10", "C11", "C12", "C13", "C14", "C15", "C16", "C17", "C19"];
+pub const ALL: &[&str] = &["C01", "C02", "C03", "C04", "C05", "C06", "C07", "C08", "C09", "C10", "C11", "C12", "C13", "C14", "C15", "C16", "C17", "C19", "C20"];
 
 pub const ASSUMPTIONS: &[&str] = &[
     "native x86-64 build of the program (same Rust source, overflow-checks on) instead of SBF; compute-unit, heap and stack limits are not modelled",
